@@ -67,43 +67,43 @@ func decodeKind(kind string, b []byte) (J, error) {
 	switch kind {
 	case "prot":
 		var h cose.ProtectedHeader
-		if err := h.UnmarshalCBOR(b); err != nil {
+		if err := viaRecv(b, h.UnmarshalCBOR); err != nil {
 			return nil, err
 		}
 		return J{"P": projectBucket(h)}, nil
 	case "unprot":
 		var h cose.UnprotectedHeader
-		if err := h.UnmarshalCBOR(b); err != nil {
+		if err := viaRecv(b, h.UnmarshalCBOR); err != nil {
 			return nil, err
 		}
 		return J{"U": projectBucket(h)}, nil
 	case "sign1":
 		var m cose.Sign1Message
-		if err := m.UnmarshalCBOR(b); err != nil {
+		if err := viaRecv(b, m.UnmarshalCBOR); err != nil {
 			return nil, err
 		}
 		return projectSign1(&m), nil
 	case "sign1u":
 		var m cose.UntaggedSign1Message
-		if err := m.UnmarshalCBOR(b); err != nil {
+		if err := viaRecv(b, m.UnmarshalCBOR); err != nil {
 			return nil, err
 		}
 		return projectSign1((*cose.Sign1Message)(&m)), nil
 	case "sign":
 		var m cose.SignMessage
-		if err := m.UnmarshalCBOR(b); err != nil {
+		if err := viaRecv(b, m.UnmarshalCBOR); err != nil {
 			return nil, err
 		}
 		return projectSign(&m), nil
 	case "sig":
 		var m cose.Signature
-		if err := m.UnmarshalCBOR(b); err != nil {
+		if err := viaRecv(b, m.UnmarshalCBOR); err != nil {
 			return nil, err
 		}
 		return projectSig(&m), nil
 	case "csig":
 		var m cose.Countersignature
-		if err := m.UnmarshalCBOR(b); err != nil {
+		if err := viaRecv(b, m.UnmarshalCBOR); err != nil {
 			return nil, err
 		}
 		return projectSig((*cose.Signature)(&m)), nil
@@ -136,48 +136,75 @@ func priorImage(kind string) []byte {
 	panic("priorImage: " + kind)
 }
 
+// refusedImage is a value of the kind that the decoder refuses after it has looked at several parameters (label 7 holds no countersignature;
+// the protected bucket names an absent critical label).
+func refusedImage(kind string) []byte {
+	prot := []byte{0x49, 0xa3, 0x01, 0x26, 0x02, 0x81, 0x18, 0x2a, 0x05, 0x41, 0x01}               // bstr {1: -7, 2: [42], 5: h'01'}
+	unprot := []byte{0xa4, 0x04, 0x42, 0x6b, 0x31, 0x05, 0x41, 0x02, 0x06, 0x41, 0x03, 0x07, 0x01} // {4: 'k1', 5: h'02', 6: h'03', 7: 1}
+	okprot := []byte{0x43, 0xa1, 0x01, 0x26}
+	sig3 := append(append(append([]byte{0x83}, okprot...), unprot...), 0x42, 0xaa, 0xbb)
+	switch kind {
+	case "prot":
+		return prot
+	case "unprot":
+		return unprot
+	case "sign1", "sign1u":
+		body := append(append(append([]byte{0x84}, okprot...), unprot...), 0x41, 0x01, 0x42, 0xaa, 0xbb)
+		if kind == "sign1" {
+			return append([]byte{0xd2}, body...)
+		}
+		return body
+	case "sign":
+		body := append(append(append([]byte{0xd8, 0x62, 0x84}, okprot...), unprot...), 0x41, 0x01, 0x81)
+		return append(body, sig3...)
+	case "sig", "csig":
+		return sig3
+	}
+	panic("refusedImage: " + kind)
+}
+
 // decodeNoRaw decodes b and projects the value without raw bytes (content only).
 func decodeNoRaw(kind string, b []byte) (J, error) {
 	switch kind {
 	case "prot":
 		var h cose.ProtectedHeader
-		if err := h.UnmarshalCBOR(b); err != nil {
+		if err := viaRecv(b, h.UnmarshalCBOR); err != nil {
 			return nil, err
 		}
 		return J{"P": bucketNoNull(h), "U": []any{}}, nil
 	case "unprot":
 		var h cose.UnprotectedHeader
-		if err := h.UnmarshalCBOR(b); err != nil {
+		if err := viaRecv(b, h.UnmarshalCBOR); err != nil {
 			return nil, err
 		}
 		return J{"P": []any{}, "U": bucketNoNull(h)}, nil
 	case "sign1":
 		var m cose.Sign1Message
-		if err := m.UnmarshalCBOR(b); err != nil {
+		if err := viaRecv(b, m.UnmarshalCBOR); err != nil {
 			return nil, err
 		}
 		return noRawSign1(&m), nil
 	case "sign1u":
 		var m cose.UntaggedSign1Message
-		if err := m.UnmarshalCBOR(b); err != nil {
+		if err := viaRecv(b, m.UnmarshalCBOR); err != nil {
 			return nil, err
 		}
 		return noRawSign1((*cose.Sign1Message)(&m)), nil
 	case "sign":
 		var m cose.SignMessage
-		if err := m.UnmarshalCBOR(b); err != nil {
+		if err := viaRecv(b, m.UnmarshalCBOR); err != nil {
 			return nil, err
 		}
 		return noRawSign(&m), nil
 	case "sig":
 		var m cose.Signature
-		if err := m.UnmarshalCBOR(b); err != nil {
+		if err := viaRecv(b, m.UnmarshalCBOR); err != nil {
 			return nil, err
 		}
 		return noRawSig(&m), nil
 	case "csig":
 		var m cose.Countersignature
-		if err := m.UnmarshalCBOR(b); err != nil {
+		if err := viaRecv(b, m.UnmarshalCBOR); err != nil {
 			return nil, err
 		}
 		return noRawSig((*cose.Signature)(&m)), nil
@@ -248,11 +275,12 @@ func init() {
 		}
 		// the same image decoded into a destination that was used before (it holds a valid value of the same kind with other parameters):
 		// verdict and value must be those of the fresh destination
-		ev["decused"], ev["usedsame"] = "n/a", true
+		ev["decused"], ev["usedsame"], ev["priorok"], ev["prior"], ev["badrefused"], ev["bad"] = "n/a", true, true, ints(priorImage(kind)), true, ints(refusedImage(kind))
 		if p := guard(func() {
 			dst := newOfKind(kind)
 			if err := unmarshalInto(dst, priorImage(kind)); err != nil {
-				fatal("hdrgrid: prior value of kind %s does not decode: %v", kind, err)
+				ev["priorok"] = false // the judge decides whether that image had to be accepted
+				return
 			}
 			err := unmarshalInto(dst, image)
 			ev["decused"] = okErr(err)
@@ -265,6 +293,25 @@ func init() {
 			}
 		}); p != "" {
 			ev["decused"] = "panic"
+		}
+		// ... and decoded (into a fresh destination) right after a decode of the same kind that was refused half-way
+		ev["decafterbad"], ev["afterbadsame"] = "n/a", true
+		if p := guard(func() {
+			if err := unmarshalInto(newOfKind(kind), refusedImage(kind)); err == nil {
+				ev["badrefused"] = false
+			}
+			dst := newOfKind(kind)
+			err := unmarshalInto(dst, image)
+			ev["decafterbad"] = okErr(err)
+			if err == nil && decErr == nil {
+				fresh := newOfKind(kind)
+				_ = unmarshalInto(fresh, image)
+				a, _ := json.Marshal(projectObj(dst))
+				b, _ := json.Marshal(projectObj(fresh))
+				ev["afterbadsame"] = bytes.Equal(a, b)
+			}
+		}); p != "" {
+			ev["decafterbad"] = "panic"
 		}
 		// round trip of the library's own output (C08): decodable, and re-encoding gives the same bytes
 		ev["outdec"] = "n/a"
